@@ -339,11 +339,10 @@ where
     let oty = format!("{}<Sym>", <M::Other as MatX<Sym>>::NAME);
     let refdet = move |f: &dyn Fn(u32) -> Fp| -> Vec<Fp> {
         let g: Grid<Fp> = (0..n).map(|i| (0..n).map(|j| f((i * n + j) as u32)).collect()).collect();
-        // cross-check of the harness's own oracle: Leibniz by cycle parity == Leibniz by inversion count
         vec![leibniz(&g)]
     };
     let fill = || M::from_fn(|i, j| Sym::var((i * n + j) as u32));
-    let mut run = |sub: &mut Sub, case: &str, ty: &str, f: &dyn Fn() -> Sym| {
+    let run = |sub: &mut Sub, case: &str, ty: &str, f: &dyn Fn() -> Sym| {
         sym_reset();
         match guarded(f) {
             Ok(d) => {
@@ -775,6 +774,10 @@ fn rigid_case<T: Elem>(sub: &mut Sub, cfg: &Config, idx: u64) {
     both!(Cols4, 32);
 }
 
+fn scale_any(rng: &mut Rng, classes: u64) -> Q {
+    let c = rng.below(classes);
+    scale_component(rng, c)
+}
 fn scale_component(rng: &mut Rng, class: u64) -> Q {
     let sign = if rng.chance(1, 3) { -1 } else { 1 };
     let mag = match class {
@@ -795,12 +798,12 @@ fn affine_case(sub: &mut Sub, cfg: &Config, idx: u64) {
     let t = if idx % 7 == 0 { [Q::ZERO; 3] } else { [Q::entry(&mut rng), Q::entry(&mut rng), Q::entry(&mut rng)] };
     let s: [Q; 3] = match idx % 5 {
         0 => {
-            let u = scale_component(&mut rng, rng.below(4));
+            let u = scale_any(&mut rng, 4);
             [u, u, u]
         }
         1 => [scale_component(&mut rng, 0), scale_component(&mut rng, 0), scale_component(&mut rng, 0)],
         2 => [scale_component(&mut rng, 1), scale_component(&mut rng, 2), scale_component(&mut rng, 0)],
-        3 => [scale_component(&mut rng, rng.below(5)), scale_component(&mut rng, rng.below(5)), scale_component(&mut rng, rng.below(5))],
+        3 => [scale_any(&mut rng, 5), scale_any(&mut rng, 5), scale_any(&mut rng, 5)],
         _ => [Q::ONE, Q::ONE, Q::ONE],
     };
     // domain of the property: scales not negligibly small (vek's own threshold: s^2 > epsilon)
@@ -1167,7 +1170,7 @@ fn main() {
         }
         rep.push(s);
     }
-    let nd = cfg.n(400, 40_000);
+    let nd = cfg.n(4_000, 400_000);
     {
         let proto = Sub::new(
             "det_values",
@@ -1201,7 +1204,7 @@ fn main() {
         }
         rep.push(s);
     }
-    let ni = cfg.n(1_600, 160_000);
+    let ni = cfg.n(16_000, 2_000_000);
     {
         let proto = Sub::new(
             "inverse_values",
@@ -1215,7 +1218,7 @@ fn main() {
         });
         rep.push(s);
     }
-    let nr = cfg.n(600, 60_000);
+    let nr = cfg.n(6_000, 600_000);
     {
         let proto = Sub::new(
             "rigid_inverse",
@@ -1239,7 +1242,7 @@ fn main() {
         let s = run_cases(&cfg, proto, nr, |s, i| affine_case(s, &cfg, i));
         rep.push(s);
     }
-    let nf = cfg.n(400, 40_000);
+    let nf = cfg.n(4_000, 400_000);
     {
         let proto = Sub::new(
             "float_inverse",
